@@ -165,6 +165,27 @@ fn mutate_csv(rng: &mut Rng, doc: &str) -> (String, String) {
     }
 }
 
+/// damage to the structure of the document that leaves every item intact: the count in the header of the top-level
+/// array (the fields of the store) one less / one more than the fields that follow. A decoder that accepts either has
+/// not read the store that was written.
+fn structural_cbor(doc: &[u8]) -> Vec<(String, Vec<u8>)> {
+    let mut out = vec![];
+    if doc.is_empty() { return out; }
+    let (count, hdr): (u64, usize) = match doc[0] {
+        0x80..=0x97 => ((doc[0] & 0x1f) as u64, 1),
+        0x98 if doc.len() > 1 => (doc[1] as u64, 2),
+        0x99 if doc.len() > 2 => (((doc[1] as u64) << 8) | doc[2] as u64, 3),
+        _ => return out,
+    };
+    for (name, c) in [("toplevel-count-minus-1", count.wrapping_sub(1)), ("toplevel-count-plus-1", count + 1)] {
+        if count == 0 && name.ends_with("minus-1") { continue; }
+        let mut b: Vec<u8> = if c < 24 { vec![0x80 | c as u8] } else if c < 256 { vec![0x98, c as u8] } else { vec![0x99, (c >> 8) as u8, c as u8] };
+        b.extend_from_slice(&doc[hdr..]);
+        out.push((name.to_string(), b));
+    }
+    out
+}
+
 fn mutate_bytes(rng: &mut Rng, doc: &[u8]) -> (String, Vec<u8>) {
     let mut b = doc.to_vec();
     if b.is_empty() { return ("unchanged".into(), b); }
@@ -232,7 +253,7 @@ fn load_case(dir: &std::path::Path, case: &Case) -> String {
         Ok(Err(_)) => "err".into(),
         Ok(Ok(store)) => {
             // what came back must be a store: observable, index-consistent, serialisable
-            match guarded(std::panic::AssertUnwindSafe(|| { let o = observe(&store); let c = consistency(&store); let j = store.to_json_string(&Config::default()).is_ok(); (o.len(), c, j) })) {
+            match guarded(std::panic::AssertUnwindSafe(|| { let o = observe(&store); let c = consistency(&store); substore_probe(&store); let j = store.to_json_string(&Config::default()).is_ok(); (o.len(), c, j) })) {
                 Err(m) => format!("loaded-store-panics:{}:{}", last_panic_loc(), m.chars().take(60).collect::<String>().replace('\n', " ")),
                 Ok((_, c, j)) => if let Some(d) = case.extra.iter().find(|f| f.0 == "__expect__").and_then(|f| String::from_utf8_lossy(&f.1).lines().find_map(|l| {
                         let (id, sels) = l.split_once('|')?;
@@ -253,6 +274,16 @@ fn load_case(dir: &std::path::Path, case: &Case) -> String {
             }
         }
     }
+}
+
+/// ordinary reads that go through the sub-store tables
+fn substore_probe(store: &AnnotationStore) -> usize {
+    let mut n = store.substores().count();
+    for ss in store.substores() { n += ss.id().map(|x| x.len()).unwrap_or(0) + ss.as_ref().annotations_len(); }
+    for a in store.annotations() { n += a.substore().map(|_| 1).unwrap_or(0); }
+    for r in store.resources() { n += r.substores().count(); }
+    for d in store.datasets() { n += d.substores().count(); }
+    n
 }
 
 fn write_cases(path: &std::path::Path, cases: &[Case]) {
@@ -398,6 +429,7 @@ pub fn run(opts: &Opts) -> Report {
         if store.to_file(p.to_str().unwrap()).is_ok() {
             if let Ok(b) = std::fs::read(&p) {
                 cases.push(Case { format: "cbor", class: "cbor/valid".into(), main: b.clone(), extra: expect_file.clone() });
+                for (class, m) in structural_cbor(&b) { cases.push(Case { format: "cbor", class: format!("cbor/structure/{}", class), main: m, extra: vec![] }); }
                 for _ in 0..per / 2 {
                     let (class, m) = mutate_bytes(&mut rng, &b);
                     cases.push(Case { format: "cbor", class: format!("cbor/{}", class), main: m, extra: vec![] });
@@ -405,6 +437,27 @@ pub fn run(opts: &Opts) -> Report {
             }
         }
         std::fs::remove_file(&p).ok();
+    }
+    // ---- stores with sub-stores (loaded from a root document that @includes them), as CBOR
+    for i in 0..4 {
+        let sub = dir.join(format!("subs{}", i));
+        let root = crate::fam::serial::write_substore_docs(&sub, i);
+        if let Ok(Ok(mut st)) = guarded(std::panic::AssertUnwindSafe(|| AnnotationStore::from_file(root.to_str().unwrap(), Config::default()))) {
+            let p = dir.join(format!("s{}.store.stam.cbor", i));
+            st.set_filename(p.to_str().unwrap());
+            if st.save().is_ok() {
+                if let Ok(b) = std::fs::read(&p) {
+                    cases.push(Case { format: "cbor", class: "cbor/valid/substores".into(), main: b.clone(), extra: vec![] });
+                    for (class, m) in structural_cbor(&b) { cases.push(Case { format: "cbor", class: format!("cbor/structure/{}", class), main: m, extra: vec![] }); }
+                    for _ in 0..per / 2 {
+                        let (class, m) = mutate_bytes(&mut rng, &b);
+                        cases.push(Case { format: "cbor", class: format!("cbor/{}", class), main: m, extra: vec![] });
+                    }
+                }
+            }
+            std::fs::remove_file(&p).ok();
+        }
+        std::fs::remove_dir_all(&sub).ok();
     }
     // hand-written hostile documents (references to empty slots, to themselves, to later items; empty structures)
     let res = "{\"@type\": \"TextResource\", \"@id\": \"r\", \"text\": \"hello world\"}";
@@ -511,7 +564,7 @@ pub fn run(opts: &Opts) -> Report {
             rep.count(&format!("{}:{}", c.format, outcome));
             rep.count(&format!("class:{}", c.class.split('/').take(2).collect::<Vec<_>>().join("/")));
             let doc = || -> Vec<String> { let mut v = vec![format!("ut format={} class={}", c.format, c.class), format!("main-hex: {}", c.main.iter().map(|x| format!("{:02x}", x)).collect::<String>())]; for (n, b) in &c.extra { v.push(format!("file {} hex: {}", n, b.iter().map(|x| format!("{:02x}", x)).collect::<String>())); } v };
-            if c.format == "cbor" && (o.starts_with("loaded-store-panics") || o.starts_with("inconsistent")) {
+            if c.format == "cbor" && !c.class.starts_with("cbor/structure/") && !c.class.starts_with("cbor/valid") && (o.starts_with("loaded-store-panics") || o.starts_with("inconsistent")) {
                 // one cause: the CBOR loader does not cross-check what it decodes
                 rep.fail(if o.starts_with("loaded") { "panic" } else { "oracle" }, &format!("C19/cbor/corrupted-input-accepted/{}", if o.starts_with("loaded") { "store-panics-on-use" } else { "store-inconsistent" }), doc(), "an error or a consistent store", o);
             } else if o.starts_with("panic") {
